@@ -7,7 +7,14 @@ CONSTANT ScenLen
 VARIABLE hist
 svars == <<vars, hist>>
 
-SInit == Init /\ hist = <<[ev |-> "Reset", chain |-> [r \in Roots |-> chain[r]], now |-> now]>>
+\* Init with the parents drawn at random per chain (the full product of chains and parent functions is too
+\* large to enumerate as initial states of a simulation): an earlier block of the model, or none
+SInit0 ==
+    /\ chain \in [Roots -> Slots]
+    /\ parent = [r \in Roots |-> RandomElement({NoRoot} \cup {q \in Roots : chain[q] < chain[r]})]
+    /\ map = Empty /\ now \in Nows /\ ehead = NoRoot /\ heads = {} /\ last = NoReply
+SInit == SInit0 /\ hist = <<[ev |-> "Reset", chain |-> [r \in Roots |-> chain[r]],
+                             parent |-> [r \in Roots |-> parent[r]], now |-> now]>>
 
 H(e) == hist' = Append(hist, e)
 
@@ -18,6 +25,10 @@ SNext ==
             \/ LookupHit(r) /\ H([ev |-> "Lookup", root |-> r, fetch |-> "none"])
             \/ LookupMissOk(r) /\ H([ev |-> "Lookup", root |-> r, fetch |-> "ok"])
             \/ LookupMissErr(r) /\ H([ev |-> "Lookup", root |-> r, fetch |-> "err"])
+            \/ CtlBlockEvent(r) /\ H([ev |-> "CtlBlockEvent", root |-> r])
+            \/ \E ok \in BOOLEAN : HeadEvent(r, ok) /\ map' = map /\ H([ev |-> "HeadEvent", root |-> r, ok |-> ok])
+            \/ CtlHeadEvent(r) /\ map' = map /\ H([ev |-> "CtlHeadEvent", root |-> r])
+       \/ ExecHead /\ H([ev |-> "ExecHead"])
        \/ Clean /\ H([ev |-> "Clean"])
        \/ \E t \in Nows : Advance(t) /\ H([ev |-> "Advance", now |-> t])
 
